@@ -459,6 +459,8 @@ def jsonable(x):
         return [jsonable(v) for v in x]
     if isinstance(x, (set, frozenset)):
         return sorted(jsonable(v) for v in x)
+    if isinstance(x, float) and (x != x or x in (float("inf"), float("-inf"))):
+        return repr(x)       # (strict JSON has no word for them)
     if isinstance(x, (str, int, float, bool, type(None))):
         return x
     return repr(x)
